@@ -2,5 +2,9 @@ package main
 
 // extraObligations: obligation families that are not generated from one function body.
 func extraObligations(w *World, spec *Specs, prop string, opt solveOpts) []*extraResult {
-	return nil
+	var out []*extraResult
+	if prop == "C03" || prop == "" {
+		out = append(out, nondetObligations(w, spec, opt)...)
+	}
+	return out
 }
